@@ -297,8 +297,8 @@ def history_task(task, wdir, res):
                         fam = None
                         if fk.startswith("float"):
                             fam = "float_metric"
-                        elif name in ("count_field", "count_unique", "avg", "total") and fk.endswith("?"):
-                            fam = "metric_over_nullable"   # MIN / MAX over nullable fields are correct on the tree and stay asserted
+                        elif name in ("count_field", "count_unique", "avg") and fk.endswith("?"):
+                            fam = "metric_over_nullable"   # MIN / MAX / TOTAL over nullable fields are correct on the tree and stay asserted
                         report("metric_mismatch", sig,
                                f"{text} @ {tier}: group {key} {name}({fld}) = {gv!r}, fold over the selection gives {ev!r} ({len(rows)} selected rows)", w, q, fam)
 
